@@ -79,6 +79,11 @@ def run(ctx):
             case = gen_mol.cut_case(rng, nmin=7, nmax=12, aromatic_p=1.0, kekule_p=1.0)
             if case.get('kekule'):
                 ctx.feature('kekule-ring')
+        elif i % 8 == 2:
+            # aromatic rings cut in two or more places, the cut aromatic bonds written WITH their symbol ('c:[$a]')
+            case = gen_mol.cut_case(rng, nmin=7, nmax=12, aromatic_p=1.0, arom_sym_p=0.7)
+            if ':[' in case['s'] or ']:' in case['s']:
+                ctx.feature('aromatic-cut-with-symbol')
         else:
             case = gen_mol.cut_case(rng, nmax=12 if ctx.tier == 'quick' else 24, anno_p=rng.choice([0, 0, 0, 0.2]),
                                     pyrrole_p=0.15 if i % 3 == 0 else 0.0)
